@@ -378,6 +378,10 @@ type readerCase struct {
 	CloseDuring string `json:"close_during"` // "" | rebalance
 	CommitMs    int    `json:"commit_interval_ms"`
 	DelayUs     int    `json:"delay_us"`
+	// QueueCap > 0: ReaderConfig.QueueCapacity.  With Records == QueueCap + FetchFirst and nobody polling, the queue is
+	// exactly full when the partition reader has delivered everything; broker state error-fetch then gives it an error to
+	// report (a fetch answered with TOPIC_AUTHORIZATION_FAILED) while there is no room for it.
+	QueueCap int `json:"queue_cap,omitempty"`
 }
 
 func runReader(tb ev.TB, c readerCase) (labels []string, nontrivial bool) {
@@ -421,6 +425,8 @@ func runReader(tb ev.TB, c readerCase) (labels []string, nontrivial bool) {
 		case c.BrokerState == "stall-leave" && r.ApiKey == 13:
 			// the coordinator never answers LeaveGroup: Close gives up after the group's Timeout
 			return &fakecluster.Action{NoResponse: true, Tag: "stall"}
+		case c.BrokerState == "error-fetch" && r.ApiKey == 1:
+			return &fakecluster.Action{ErrorCode: 29, Tag: "fetch-error"}
 		case c.BrokerState == "slow":
 			return &fakecluster.Action{Delay: 3 * time.Millisecond, Tag: "slow"}
 		}
@@ -450,6 +456,9 @@ func runReader(tb ev.TB, c readerCase) (labels []string, nontrivial bool) {
 			ReadBackoffMin: time.Millisecond, ReadBackoffMax: 5 * time.Millisecond, MaxAttempts: 2}
 		if c.Records > 3 && c.DelayUs%200 == 0 {
 			cfg.QueueCapacity = 1 + c.Records%3 // a lagging consumer: the partition readers wait on a full queue
+		}
+		if c.QueueCap > 0 {
+			cfg.QueueCapacity = c.QueueCap
 		}
 		if c.Group {
 			cfg.GroupID = "g"
@@ -727,6 +736,14 @@ func TestReaderClose(t *testing.T) {
 		}
 		if c.FetchFirst > c.Records*2 {
 			c.FetchFirst = c.Records * 2
+		}
+		if rapid.IntRange(0, 9).Draw(t, "fullQueueThenError") == 0 {
+			// a lagging application: the queue is full to the last slot when the partition reader has an error to report
+			c.Group, c.Blocked, c.Event, c.BrokerState, c.CloseDuring = false, "none", rapid.SampledFrom([]string{"close", "cancel"}).Draw(t, "fqEvent"), "error-fetch", ""
+			c.QueueCap = rapid.IntRange(1, 4).Draw(t, "queueCap")
+			c.FetchFirst = rapid.IntRange(0, 3).Draw(t, "fqFetchFirst")
+			c.Records = c.QueueCap + c.FetchFirst
+			c.DelayUs = 450000
 		}
 		ev.InFlight("reader", c)
 		labels, nt := runReader(t, c)
